@@ -19,7 +19,11 @@ META = dict(
                 'obtained when B is computed alone on a fresh copy; equal expressions reduce to the zero polynomial, a leak of run-time '
                 'state makes B depend on the other request\'s power and z3 returns the power exposing it; network export before/after',
     bounds=['one 80 km span per direction, 2-3 channels per request, 2-3 requests per batch, both orders',
-            'symbolic: tx power of each request (below/above the ROADM target, forked), amplifier p_max'],
+            'symbolic: tx power of each request (below/above the ROADM target, forked), amplifier p_max',
+            'H16b: two service entries, optional keys max-nb-of-channel / output-power / tx_power / effective-freq-slot / explicit route each '
+            'present, null or absent (9216 patterns), powers symbolic',
+            'H16c: triangle (ring4, ring4+chord thorough) with symbolic link lengths, two requests with 5 include options each, same or '
+            'opposite end points, both orders'],
     assumptions=['floats as reals', 'spectrum slots (which legitimately depend on earlier requests) are not compared'],
     stubs=['NliSolver.compute_nli -> zero NLI (process-local, this harness only)'],
 )
